@@ -301,21 +301,44 @@ def check_early(eng, run):
     ru = db.fn("serializers.tools:GeneratorStreamReader.read_until")
     found_vars = {k for k, vs in assignments(ru).items() for v in vs if isinstance(v, ast.Call) and _cname(v) == "find"}
     from sa.norm import cmp_canon, lin_resolved
-    limit_names = {a.arg for a in ru.params() if "limit" in a.arg}
+    # ... in read_until itself or in the private helper it hands the match to through namesake arguments
+    from sa.norm import nodes_inl, private_helper
+    owners = [ru]
+    for c_ in own_nodes(ru.node):
+        if isinstance(c_, ast.Call):
+            g_ = private_helper(ru, c_)
+            if g_ is not None and g_ not in owners:
+                ps_ = [x.arg for x in g_.params()]
+                if g_.cls is not None and ps_ and not g_.has_decorator("staticmethod"):
+                    ps_ = ps_[1:]
+                if not c_.keywords and all(isinstance(a_, ast.Name) and i_ < len(ps_) and a_.id == ps_[i_] for i_, a_ in enumerate(c_.args)):
+                    owners.append(g_)
     test = None
-    for n in own_nodes(ru.node):
-        if isinstance(n, ast.If) and any(isinstance(r, ast.Raise) for r in n.body):
-            c = cmp_canon(ru, n.test)
-            if c is not None and c[1] in (">", ">=") and any(c[0].get(v) == 1 for v in found_vars) and any(c[0].get(l_) == -1 for l_ in limit_names) and len([k for k in c[0] if k]) == 2:
-                test = n
-    # every slice of the accumulated data that ends at the match (`[:sepidx]`, `[:sepidx + seplen]`, through any local) comes after that test
-    slices = []
-    for n in own_nodes(ru.node):
-        if isinstance(n, ast.Subscript) and isinstance(n.slice, ast.Slice) and n.slice.lower is None and n.slice.upper is not None and isinstance(n.ctx, ast.Load):
-            lin = lin_resolved(ru, n.slice.upper)
-            if lin is not None and any(v in lin for v in found_vars):
-                slices.append(n)
-    ok = test is not None and bool(slices) and all(test.lineno < s_.lineno for s_ in slices)
+    ok = False
+    any_slices = False
+    all_dominated = True
+    for ow in owners:
+        fv = found_vars if ow is ru else (found_vars & {a.arg for a in ow.params()})
+        limit_names = {a.arg for a in ow.params() if "limit" in a.arg}
+        t_ = None
+        for n in own_nodes(ow.node):
+            if isinstance(n, ast.If) and any(isinstance(r, ast.Raise) for r in n.body):
+                c = cmp_canon(ow, n.test)
+                if c is not None and c[1] in (">", ">=") and any(c[0].get(v) == 1 for v in fv) and any(c[0].get(l_) == -1 for l_ in limit_names) and len([k for k in c[0] if k]) == 2:
+                    t_ = n
+        # every slice of the accumulated data that ends at the match (`[:sepidx]`, `[:sepidx + seplen]`, through any local) comes after that test
+        slices = []
+        for n in own_nodes(ow.node):
+            if isinstance(n, ast.Subscript) and isinstance(n.slice, ast.Slice) and n.slice.lower is None and n.slice.upper is not None and isinstance(n.ctx, ast.Load):
+                lin = lin_resolved(ow, n.slice.upper)
+                if lin is not None and any(v in lin for v in fv):
+                    slices.append(n)
+        if slices:
+            any_slices = True
+            if t_ is None or not all(t_.lineno < s_.lineno for s_ in slices):
+                all_dominated = False
+        test = test or t_
+    ok = test is not None and any_slices and all_dominated
     if not ok:
         run.finding("C07.early", ru, test or ru.node, "read_until() no longer rejects a frame whose separator was found beyond the limit before slicing it out")
     run.ob("C07.early", f"{ru.short}:found-but-too-long", ok)
@@ -434,15 +457,16 @@ def run(eng, run):
     from sa.anchors import verify as _verify_anchor_names
     _verify_anchor_names(eng, run)
     run.not_decided += NOT_DECIDED
-    check_guard(eng, run)
-    check_limit_escapes(eng, run)
-    check_early(eng, run)
+    run.attempt(check_guard, eng, run)
+    run.attempt(check_limit_escapes, eng, run)
+    run.attempt(check_early, eng, run)
     from rules import c01
     from sa.report import RuleAlias
-    c01.check_esc(eng, RuleAlias(run, "C07.early"))  # a mis-framed string swallows later frames until the limit rejects small ones
-    check_fixed(eng, run)
-    check_thread(eng, run)
+    run.attempt(c01.check_esc, eng, RuleAlias(run, "C07.early"))  # a mis-framed string swallows later frames until the limit rejects small ones
+    run.attempt(check_fixed, eng, run)
+    run.attempt(check_thread, eng, run)
     run.tables["no_limit_by_design"] = NO_LIMIT_BY_DESIGN
+    run.end_of_rules()
 
 
 # ---------------------------------------------------------------------------------------------- self-test corpus
